@@ -22,7 +22,7 @@ RULE = (
     "parallel runs."
 )
 ASSUMPTIONS = ["worker processes are created by fork, so the patched module attributes and the subclass are inherited"]
-MIN_NONTRIVIAL = {"quick": 40, "thorough": 1500}
+MIN_NONTRIVIAL = {"quick": 40, "thorough": 300}
 SHARD_TIMEOUT = {"quick": 1500, "thorough": 7200}
 
 PAD = {"x86": ["vaddpd %%xmm%d, %%xmm%d, %%xmm%d" % (i % 14 + 1, i % 14 + 1, 15) for i in range(20)],
